@@ -32,6 +32,8 @@ const (
 	FaultAbsent           // not found
 	FaultError            // I/O error
 	FaultStall            // never completes until the context ends
+	FaultDeadline         // the store gave up on this block under a deadline of its OWN: a wrapped context.DeadlineExceeded, although the caller's context is alive
+	FaultCanceled         // likewise, a wrapped context.Canceled (the store's own request was cancelled)
 )
 
 var ErrInjected = errors.New("fakeipfs: injected error")
@@ -359,6 +361,10 @@ func (d *dagSvc) Get(ctx context.Context, c cid.Cid) (format.Node, error) {
 		return nil, format.ErrNotFound{Cid: c}
 	case FaultError:
 		return nil, ErrInjected
+	case FaultDeadline:
+		return nil, fmt.Errorf("block store: request for %s timed out: %w", c, context.DeadlineExceeded)
+	case FaultCanceled:
+		return nil, fmt.Errorf("block store: request for %s abandoned: %w", c, context.Canceled)
 	}
 	if !ok {
 		return nil, format.ErrNotFound{Cid: c}
